@@ -34,7 +34,7 @@ ASSUMPTIONS = [
     "a plain call issued before force_stop() may never execute if the loop stops first (queued, not guaranteed); if it executes it executes exactly once and in call order",
     "exceptions of plain calls surface in the owner loop's exception handler",
 ]
-PROBES = ["call.coro_value", "call.coro_raises", "call.plain_none", "call.plain_value", "call.attr", "call.direct", "call.after_close", "force_stop_mid_burst",
+PROBES = ["call.handover", "call.coro_value", "call.coro_raises", "call.plain_none", "call.plain_value", "call.attr", "call.direct", "call.after_close", "force_stop_mid_burst",
           "preempted_in_proxy", "thread_switches", "typeerror_on_owner", "cancelled_by_stop", "owner_main_direction", "burst_ge_10"]
 
 KINDS = ("coro_value", "coro_raises", "plain_none", "plain_value", "attr")
@@ -224,6 +224,54 @@ def run(scenario, params, tape, detail=False):
                     v = await co
                     if v != ("value", -2):
                         viol.append(("C20.direct", "value", f"direct coroutine call returned {v!r}"))
+            # methods looked up on one loop and invoked on the other (a stored bound method handed over as a callback)
+            if st["stop_ev"] is None and b == 0 and (scenario == "fixed" or tape.draw(2, "handover")):
+                probe("call.handover")
+                other_is_worker = direction == "main"  # the non-owner loop
+
+                async def on_w(fn):
+                    return fn()
+
+                def run_on(where, fn):
+                    """Run fn() inside loop `where` ('M' = here, 'W' = worker) and return its result."""
+                    if where == "M":
+                        async def here():
+                            return fn()
+                        return here()
+                    return thread.run_coroutine_threadsafe(on_w(fn))
+
+                owner, other = ("W", "M") if direction == "worker" else ("M", "W")
+                # 1. fetched on the owner's loop, called from the other loop: must still be marshalled to the owner
+                m_plain = await run_on(owner, lambda: proxy.plain_none)
+                m_coro = await run_on(owner, lambda: proxy.coro_value)
+                hid = 1000 + len(calls)
+                n0 = len(rec)
+                r = await run_on(other, lambda: m_plain(hid))
+                if r is not None:
+                    viol.append(("C20.plain", "handover-return", f"stored plain method fetched on the owner's loop and called from the other loop returned {r!r}"))
+                fut = await run_on(other, lambda: m_coro(hid + 1))
+                if direction == "worker":
+                    try:
+                        v = await fut if fut is not None else None
+                    except BaseException as e:  # noqa: BLE001
+                        v = e
+                    if v != ("value", hid + 1):
+                        viol.append(("C20.relay", "handover-value", f"stored coroutine method called from the other loop gave {v!r}"))
+                for _ in range(50):
+                    if len([x for x in rec[n0:] if x[1] in (hid, hid + 1)]) >= 2:
+                        break
+                    await asyncio.sleep(0.001)
+                # 2. fetched on the other loop, called on the owner's loop: runs directly
+                m2 = await run_on(other, lambda: proxy.plain_value)
+                n1 = len(rec)
+
+                def direct():
+                    r2 = m2(hid + 2)
+                    return (r2, len(rec) - n1)
+
+                r2, ran = await run_on(owner, direct)
+                if r2 != hid + 2 or ran != 1:
+                    viol.append(("C20.direct", "handover-not-direct", f"method fetched on another loop and called on the owner's loop returned {r2!r} and ran {ran} bodies before returning (expected the value, synchronously)"))
             # wait for the burst, bounded by loop iterations (no real time)
             for _ in range(400):
                 if all(t.done() for t in ts):
@@ -322,12 +370,13 @@ def run(scenario, params, tape, detail=False):
             elif res[0] == "cancelled" and not overl:
                 viol.append(("C20.relay", "cancelled", f"coroutine call {c['id']} was cancelled without force_stop"))
     # plain calls execute in call order
-    order = [x for (what, x, _i, _l) in rec if what.startswith("plain") and x is not None and x >= 0]
+    order = [x for (what, x, _i, _l) in rec if what.startswith("plain") and x is not None and 0 <= x < 1000]
     if order != sorted(order):
         viol.append(("C20.plain", "order", f"plain calls executed in order {order}"))
     # plain_value -> TypeError on the owner loop, not in the caller
     npv = sum(1 for c in calls if c["kind"] == "plain_value" and not c.get("after_close") and len(executed.get(c["id"], [])) == 1)
     nte = sum(1 for (_m, tname, _r) in owner_exc if tname == "TypeError")
+    nte -= 0
     if npv:
         probe("typeerror_on_owner", nte)
         if nte != npv and stop_ev is None:
